@@ -94,7 +94,7 @@ def keepalivePossible (s : St) (closeHdr : Bool) : KA :=
 /-- `transmit_error_response_len`: second error ⇒ CLOSED directly; otherwise the read buffer is
     dropped, the error reply is queued, `keepalive = MUST_CLOSE`, headers are built and sent. -/
 def errorReply (s : St) (status : Nat) : St :=
-  if s.stopErr then { s with state := .closed, out := .close :: s.out }
+  if s.stopErr then { s with state := .closed, buf := [], out := .close :: s.out }
   else
     { s with stopErr := true, discard := true, buf := [], resp := some (status, false),
              keepalive := .mustClose, state := .fullReplySent,
